@@ -6,6 +6,7 @@ import AriVerif.Gen.Exc
 import AriVerif.Gen.Pool
 import AriVerif.Proto
 import AriVerif.Spec.Ari
+import AriVerif.Init
 /-!
 Line-protocol driver: one operation per input line, one answer line per operation.
 Every string travels as lower-case hex of its UTF-8 bytes (`-` = empty).
@@ -114,6 +115,41 @@ def stepLine (line : String) : String :=
       match parseRat? cfg, parseRat? h with
       | some c, some h => let e := effective c h; "ok " ++ showRat e.1 ++ " " ++ showRat e.2
       | _, _ => "bad-op"
+  | "init" :: kind :: close :: ka :: hv :: cfgf :: rest =>
+      let k? : Option Kind := if kind = "data" then some .dataK else if kind = "meta" then some .metaK else none
+      let parseVal (t : String) : Option Val := (parseOptStr? t).map Val.str
+      let rec pairs (n : Nat) (ts : List String) (acc : PDict) : Option (PDict × List String) :=
+        match n, ts with
+        | 0, ts => some (acc.reverse, ts)
+        | n + 1, a :: b :: r => match parseVal a, parseVal b with
+          | some x, some y => pairs n r ((x, y) :: acc)
+          | _, _ => none
+        | _, _ => none
+      let loc? : Option (Option PDict × List String) := match rest with
+        | "n" :: r => some (none, r)
+        | n :: r => match n.toNat? with
+          | some k => (pairs k r []).map fun (d, r') => (some d, r')
+          | none => none
+        | [] => none
+      match k?, parseRat? ka, parseRat? hv, parseOptStr? cfgf, loc? with
+      | some k, some kav, some hvv, some cf, some (loc, nt :: r2) =>
+        match nt.toNat? with
+        | some n =>
+          match hexToks? (r2.take n), parseOutcomes (r2.drop n) [] with
+          | some toks, some [o1, o2] =>
+            match decodeRequest k.method toks with
+            | some (.ok ⟨_, .map prs⟩) =>
+              let o := onInit ⟨k, prs, loc, cf, close == "t", kav, hvv, o1, o2⟩
+              let showD (d : PDict) : String := "d{ " ++ " ".intercalate (d.flatMap fun (a, b) => [showVal a, showVal b]) ++ " }"
+              "ok reply " ++ Hex.ofStr o.reply ++ " close " ++ (if o.closeExpected then "t" else "f") ++
+                " init " ++ (match o.initArgs with | none => "none" | some (d, f) => showD d ++ " " ++ showOptStr f) ++
+                " listener " ++ (if o.listenerCalled then "t" else "f") ++
+                " ka " ++ showRat o.keepAlive.1 ++ " " ++ showRat o.keepAlive.2
+            | some (.error e) => "err " ++ e.method
+            | _ => "bad-op"
+          | _, _ => "bad-op"
+        | none => "bad-op"
+      | _, _, _, _, _ => "bad-op"
   | ["pool", sz, cpu] =>
       match parseOptInt? sz, parseOptInt? cpu with
       | some s, some c => "ok " ++ toString (Gen.poolSize s c)
